@@ -33,7 +33,7 @@ BOUNDS = {
 BUDGET = {"quick": 600, "thorough": 3600}
 
 LEFT = ["GaussianMeasure", "GaussianDiagMeasure", "GaussianPDF", "GaussianDiagPDF"]
-FACT = ["ConjugateFactor", "OneRankFactor", "LinearFactor", "ConstantFactor", "GaussianMeasure", "GaussianMeasure.warm", "GaussianPDF"]
+FACT = ["ConjugateFactor", "OneRankFactor", "LinearFactor", "ConstantFactor", "GaussianMeasure", "GaussianMeasure.warm", "GaussianPDF", "GaussianDiagMeasure.warm", "GaussianDiagPDF"]
 WARM = ["cold", "log_integral_light", "integrate_x"]
 
 
